@@ -1,5 +1,7 @@
+open BinNat
 open BinNums
 open BinPos
+open Datatypes
 
 module Z =
  struct
@@ -60,6 +62,18 @@ module Z =
        | Zpos y' -> pos_sub y' x'
        | Zneg y' -> Zneg (Pos.add x' y'))
 
+  (** val opp : coq_Z -> coq_Z **)
+
+  let opp = function
+  | Z0 -> Z0
+  | Zpos x0 -> Zneg x0
+  | Zneg x0 -> Zpos x0
+
+  (** val sub : coq_Z -> coq_Z -> coq_Z **)
+
+  let sub m n =
+    add m (opp n)
+
   (** val mul : coq_Z -> coq_Z -> coq_Z **)
 
   let mul x y =
@@ -76,6 +90,62 @@ module Z =
        | Zpos y' -> Zneg (Pos.mul x' y')
        | Zneg y' -> Zpos (Pos.mul x' y'))
 
+  (** val pow_pos : coq_Z -> positive -> coq_Z **)
+
+  let pow_pos z =
+    Pos.iter (mul z) (Zpos Coq_xH)
+
+  (** val pow : coq_Z -> coq_Z -> coq_Z **)
+
+  let pow x = function
+  | Z0 -> Zpos Coq_xH
+  | Zpos p -> pow_pos x p
+  | Zneg _ -> Z0
+
+  (** val compare : coq_Z -> coq_Z -> comparison **)
+
+  let compare x y =
+    match x with
+    | Z0 -> (match y with
+             | Z0 -> Eq
+             | Zpos _ -> Lt
+             | Zneg _ -> Gt)
+    | Zpos x' -> (match y with
+                  | Zpos y' -> Pos.compare x' y'
+                  | _ -> Gt)
+    | Zneg x' ->
+      (match y with
+       | Zneg y' -> coq_CompOpp (Pos.compare x' y')
+       | _ -> Lt)
+
+  (** val leb : coq_Z -> coq_Z -> bool **)
+
+  let leb x y =
+    match compare x y with
+    | Gt -> false
+    | _ -> true
+
+  (** val ltb : coq_Z -> coq_Z -> bool **)
+
+  let ltb x y =
+    match compare x y with
+    | Lt -> true
+    | _ -> false
+
+  (** val geb : coq_Z -> coq_Z -> bool **)
+
+  let geb x y =
+    match compare x y with
+    | Lt -> false
+    | _ -> true
+
+  (** val gtb : coq_Z -> coq_Z -> bool **)
+
+  let gtb x y =
+    match compare x y with
+    | Gt -> true
+    | _ -> false
+
   (** val eqb : coq_Z -> coq_Z -> bool **)
 
   let eqb x y =
@@ -90,15 +160,165 @@ module Z =
                  | Zneg q -> Pos.eqb p q
                  | _ -> false)
 
+  (** val to_nat : coq_Z -> nat **)
+
+  let to_nat = function
+  | Zpos p -> Pos.to_nat p
+  | _ -> O
+
   (** val to_N : coq_Z -> coq_N **)
 
   let to_N = function
   | Zpos p -> Npos p
   | _ -> N0
 
+  (** val of_nat : nat -> coq_Z **)
+
+  let of_nat = function
+  | O -> Z0
+  | S n0 -> Zpos (Pos.of_succ_nat n0)
+
   (** val of_N : coq_N -> coq_Z **)
 
   let of_N = function
   | N0 -> Z0
   | Npos p -> Zpos p
+
+  (** val pos_div_eucl : positive -> coq_Z -> coq_Z * coq_Z **)
+
+  let rec pos_div_eucl a b =
+    match a with
+    | Coq_xI a' ->
+      let (q, r) = pos_div_eucl a' b in
+      let r' = add (mul (Zpos (Coq_xO Coq_xH)) r) (Zpos Coq_xH) in
+      if ltb r' b
+      then ((mul (Zpos (Coq_xO Coq_xH)) q), r')
+      else ((add (mul (Zpos (Coq_xO Coq_xH)) q) (Zpos Coq_xH)), (sub r' b))
+    | Coq_xO a' ->
+      let (q, r) = pos_div_eucl a' b in
+      let r' = mul (Zpos (Coq_xO Coq_xH)) r in
+      if ltb r' b
+      then ((mul (Zpos (Coq_xO Coq_xH)) q), r')
+      else ((add (mul (Zpos (Coq_xO Coq_xH)) q) (Zpos Coq_xH)), (sub r' b))
+    | Coq_xH ->
+      if leb (Zpos (Coq_xO Coq_xH)) b
+      then (Z0, (Zpos Coq_xH))
+      else ((Zpos Coq_xH), Z0)
+
+  (** val div_eucl : coq_Z -> coq_Z -> coq_Z * coq_Z **)
+
+  let div_eucl a b =
+    match a with
+    | Z0 -> (Z0, Z0)
+    | Zpos a' ->
+      (match b with
+       | Z0 -> (Z0, a)
+       | Zpos _ -> pos_div_eucl a' b
+       | Zneg b' ->
+         let (q, r) = pos_div_eucl a' (Zpos b') in
+         (match r with
+          | Z0 -> ((opp q), Z0)
+          | _ -> ((opp (add q (Zpos Coq_xH))), (add b r))))
+    | Zneg a' ->
+      (match b with
+       | Z0 -> (Z0, a)
+       | Zpos _ ->
+         let (q, r) = pos_div_eucl a' b in
+         (match r with
+          | Z0 -> ((opp q), Z0)
+          | _ -> ((opp (add q (Zpos Coq_xH))), (sub b r)))
+       | Zneg b' -> let (q, r) = pos_div_eucl a' (Zpos b') in (q, (opp r)))
+
+  (** val div : coq_Z -> coq_Z -> coq_Z **)
+
+  let div a b =
+    let (q, _) = div_eucl a b in q
+
+  (** val modulo : coq_Z -> coq_Z -> coq_Z **)
+
+  let modulo a b =
+    let (_, r) = div_eucl a b in r
+
+  (** val quotrem : coq_Z -> coq_Z -> coq_Z * coq_Z **)
+
+  let quotrem a b =
+    match a with
+    | Z0 -> (Z0, Z0)
+    | Zpos a0 ->
+      (match b with
+       | Z0 -> (Z0, a)
+       | Zpos b0 ->
+         let (q, r) = N.pos_div_eucl a0 (Npos b0) in ((of_N q), (of_N r))
+       | Zneg b0 ->
+         let (q, r) = N.pos_div_eucl a0 (Npos b0) in
+         ((opp (of_N q)), (of_N r)))
+    | Zneg a0 ->
+      (match b with
+       | Z0 -> (Z0, a)
+       | Zpos b0 ->
+         let (q, r) = N.pos_div_eucl a0 (Npos b0) in
+         ((opp (of_N q)), (opp (of_N r)))
+       | Zneg b0 ->
+         let (q, r) = N.pos_div_eucl a0 (Npos b0) in
+         ((of_N q), (opp (of_N r))))
+
+  (** val quot : coq_Z -> coq_Z -> coq_Z **)
+
+  let quot a b =
+    fst (quotrem a b)
+
+  (** val rem : coq_Z -> coq_Z -> coq_Z **)
+
+  let rem a b =
+    snd (quotrem a b)
+
+  (** val coq_lor : coq_Z -> coq_Z -> coq_Z **)
+
+  let coq_lor a b =
+    match a with
+    | Z0 -> b
+    | Zpos a0 ->
+      (match b with
+       | Z0 -> a
+       | Zpos b0 -> Zpos (Pos.coq_lor a0 b0)
+       | Zneg b0 -> Zneg (N.succ_pos (N.ldiff (Pos.pred_N b0) (Npos a0))))
+    | Zneg a0 ->
+      (match b with
+       | Z0 -> a
+       | Zpos b0 -> Zneg (N.succ_pos (N.ldiff (Pos.pred_N a0) (Npos b0)))
+       | Zneg b0 ->
+         Zneg (N.succ_pos (N.coq_land (Pos.pred_N a0) (Pos.pred_N b0))))
+
+  (** val coq_land : coq_Z -> coq_Z -> coq_Z **)
+
+  let coq_land a b =
+    match a with
+    | Z0 -> Z0
+    | Zpos a0 ->
+      (match b with
+       | Z0 -> Z0
+       | Zpos b0 -> of_N (Pos.coq_land a0 b0)
+       | Zneg b0 -> of_N (N.ldiff (Npos a0) (Pos.pred_N b0)))
+    | Zneg a0 ->
+      (match b with
+       | Z0 -> Z0
+       | Zpos b0 -> of_N (N.ldiff (Npos b0) (Pos.pred_N a0))
+       | Zneg b0 ->
+         Zneg (N.succ_pos (N.coq_lor (Pos.pred_N a0) (Pos.pred_N b0))))
+
+  (** val coq_lxor : coq_Z -> coq_Z -> coq_Z **)
+
+  let coq_lxor a b =
+    match a with
+    | Z0 -> b
+    | Zpos a0 ->
+      (match b with
+       | Z0 -> a
+       | Zpos b0 -> of_N (Pos.coq_lxor a0 b0)
+       | Zneg b0 -> Zneg (N.succ_pos (N.coq_lxor (Npos a0) (Pos.pred_N b0))))
+    | Zneg a0 ->
+      (match b with
+       | Z0 -> a
+       | Zpos b0 -> Zneg (N.succ_pos (N.coq_lxor (Pos.pred_N a0) (Npos b0)))
+       | Zneg b0 -> of_N (N.coq_lxor (Pos.pred_N a0) (Pos.pred_N b0)))
  end
